@@ -53,6 +53,107 @@ def sort_terminates(n, edges):
     return sorted(out) == names
 
 
+def _fuel_typedef(model, tank):
+    """model.Typedef whose `definition` reads burn fuel: a loop that follows typedef chains for ever runs dry"""
+    class FTypedef(model.Typedef):
+        @property
+        def definition(self):
+            tank[0] -= 1
+            if tank[0] < 0:
+                raise Fuel()
+            return self.__dict__.get('_defn')
+
+        @definition.setter
+        def definition(self, v):
+            self.__dict__['_defn'] = v
+    return FTypedef
+
+
+class _StatPath(object):
+    """os.path stand-in: what the file system answers for the one path under test is an input of the condition"""
+
+    def __init__(self, exists, isdir):
+        self._e, self._d = exists, isdir
+    join = staticmethod(posixpath.join)
+
+    def exists(self, p):
+        return self._e
+
+    def isdir(self, p):
+        return self._d
+
+    def isfile(self, p):
+        return self._e and not self._d
+
+
+class _StatOs(object):
+    def __init__(self, exists, isdir):
+        self.path = _StatPath(exists, isdir)
+
+
+def outdir_contract(exists, isdir):
+    """whatever the option parser accepts as an output directory (options.readable_dir), the generators' path builder
+    (generators.base._make_path) accepts too - it asserts os.path.isdir; a refusal is an argparse error, never an AssertionError.
+    The file system's answers for the path are the symbolic inputs (contract: a directory exists)."""
+    import argparse
+    from prophyc import options
+    from prophyc.generators import base
+    if isdir and not exists:
+        return True
+    saved = options.os, base.os
+    options.os = base.os = _StatOs(exists, isdir)
+    try:
+        try:
+            options.readable_dir('out')
+        except argparse.ArgumentTypeError:
+            return True
+        try:
+            base._make_path('out', 'x', '.py')
+        except AssertionError:
+            return False
+        return True
+    finally:
+        options.os, base.os = saved
+
+
+MT_KINDS = ('typedef', 'struct', 'union')
+
+
+def model_terminates(kinds, refs):
+    """kinds: concrete tuple over typedef/struct/union; refs[i] in 0..n: the type node i names (n = the builtin u8; i itself
+    and cycles allowed).  A last struct Z holds node 0.  The real evaluate_model (sort, cross reference, stiffness, sizes)
+    must return or raise ModelError within the fuel (typedef-chain steps) and without any other exception."""
+    from prophyc import model
+    n = len(kinds)
+    tank = [50 * (n + 2)]
+    TD = _fuel_typedef(model, tank)
+    names = ['D%d' % i for i in range(n)]
+
+    def target(i):
+        r = refs[i]
+        for j in range(n):
+            if r == j:
+                return names[j]
+        return 'u8'
+    nodes = []
+    for i, k in enumerate(kinds):
+        t = target(i)
+        if k == 'typedef':
+            nodes.append(TD(names[i], t))
+        elif k == 'struct':
+            nodes.append(model.Struct(names[i], [model.StructMember('a', 'u8'), model.StructMember('m', t)]))
+        else:
+            nodes.append(model.Union(names[i], [model.UnionMember('a', 'u8', '1'), model.UnionMember('m', t, '2')]))
+    nodes.append(model.Struct('Z', [model.StructMember('z', names[0]), model.StructMember('t', 'u16')]))
+    try:
+        model.evaluate_model(nodes)
+    except model.ModelError:
+        return True
+    except Fuel:
+        return False
+    return True
+
+
 # ------------------------------------------------------------------------------------------------ C15 order independence
 
 KINDS = ('const', 'typedef', 'enum', 'struct', 'union')     # also the isar collection order
